@@ -139,6 +139,7 @@ class CSSStyleSheet(cssutils.stylesheets.StyleSheet):
     @cssRules.setter
     def cssRules(self, cssRules):
         "Set new cssRules and update contained rules refs."
+        self._checkReadonly()
         cssRules.append = self.insertRule
         cssRules.extend = self.insertRule
         cssRules.__delitem__ = self.deleteRule
@@ -931,7 +932,7 @@ class CSSStyleSheet(cssutils.stylesheets.StyleSheet):
 
         if rule.IMPORT_RULE == rule.type and not rule.hrefFound:
             # try loading the imported sheet which has new relative href now
-            rule.href = rule.href
+            rule._setHref(rule.href, _load=True)
 
         return index
 
